@@ -621,6 +621,8 @@ func buildWith(t *Tree, popts flags.Options, presets bool, deferLate bool) (b *B
 		p = flags.NewNamedParser("app", popts)
 	}
 	p.Name = "app"
+	p.ShortDescription = root.Desc
+	p.LongDescription = root.LongDesc
 	p.SubcommandsOptional = root.SubOpt
 	p.NamespaceDelimiter = t.NsDelim
 	p.EnvNamespaceDelimiter = t.EnvDelim
